@@ -876,6 +876,9 @@ func (p *Path) addrString(v Value) *Term {
 	if b.op == "uf" && b.name == "unbech" {
 		return b.args[0]
 	}
+	if b.IsConst() && strings.HasPrefix(b.s, "c4e1") && len(b.s) == 42 {
+		return b
+	}
 	return Concat(TStr(addrPrefix), b)
 }
 
@@ -892,6 +895,10 @@ func init() {
 			s = TStr(p.concretizeStr(s, "bech32 address"))
 		}
 		if s.IsConst() {
+			if strings.HasPrefix(s.s, "c4e1") && len(s.s) == 42 {
+				// a real bech32 literal from the source (hard-coded upgrade addresses): valid, bytes kept opaque as the literal itself
+				return p.conv(types.NewSlice(types.Typ[types.Uint8]), types.Typ[types.String], s), TTrue
+			}
 			if strings.HasPrefix(s.s, addrPrefix) && len(s.s) > len(addrPrefix) && len(s.s) <= len(addrPrefix)+255 {
 				return p.conv(types.NewSlice(types.Typ[types.Uint8]), types.Typ[types.String], TStr(s.s[len(addrPrefix):])), TTrue
 			}
@@ -1038,5 +1045,16 @@ func init() {
 			p.panicNow(p.site(pos), "Error() on nil *errors.Error", nil)
 		}
 		return eo.Msg
+	})
+}
+
+func init() {
+	// AddDate is calendar arithmetic: kept uninterpreted (a function of the instant and the three offsets)
+	reg("(time.Time).AddDate", func(p *Path, _ *frame, a []Value, _ token.Pos) Value {
+		y, m, d := a[1].(*Term), a[2].(*Term), a[3].(*Term)
+		if y.IsConst() && m.IsConst() && d.IsConst() && y.i.Sign() == 0 && m.i.Sign() == 0 && d.i.Sign() == 0 {
+			return a[0]
+		}
+		return TimeV{p.ufApp("time_adddate", SInt, false, a[0].(TimeV).NS, y, m, d)}
 	})
 }
